@@ -780,6 +780,13 @@ pub fn make(profile: &str, seed: u64, index: u64) -> (Params, Extras) {
                 c.max_open_local_uni = 100;
                 c.handshake_ms = 4_000;
             }
+            // nobody starts with datagrams larger than its peer's receive buffer: that
+            // situation is the known C07 finding (the limit is never advertised) and, with a
+            // declared max_ack_delay of 16 s, turns every recovery step into a 16 s wait
+            let smallest_rx = std::iter::once(p.server.max_mtu).chain(p.clients.iter().map(|c| c.cfg.max_mtu)).min().unwrap_or(1228);
+            for c in std::iter::once(&mut p.server).chain(p.clients.iter_mut().map(|c| &mut c.cfg)) {
+                c.initial_mtu = c.initial_mtu.min(smallest_rx);
+            }
             let by_client = match case.sender() {
                 Some(b) => b,
                 None => (index / CASES.len() as u64) % 2 == 0,
@@ -959,6 +966,11 @@ pub fn make(profile: &str, seed: u64, index: u64) -> (Params, Extras) {
                 }
             }
             p.linger_us = 2 * (a.max(b) + 20_000) * 1000;
+            // RFC 9000 10.1: the idle period is at least three times the current PTO. With a
+            // one-way blackhole an endpoint keeps hearing its peer's probes until the peer
+            // gives up, its own PTO doubling all the while: it may legitimately report only
+            // at (last packet heard) + 3 x (backed-off PTO), several times the idle value
+            p.t_max_us = p.t_max_us.max(1_500_000_000);
             p
         }
         "C09bh" => {
